@@ -38,6 +38,8 @@ type specCtx struct {
 	panicking bool
 	bound     map[string]Value
 	evFrom    int
+	letExprs  map[string]ast.Expr
+	letBusy   map[string]bool
 }
 
 func (x *Exec) specCtxFor(st *State, fr *Frame, pre *preSnap) *specCtx {
@@ -47,6 +49,9 @@ func (x *Exec) specCtxFor(st *State, fr *Frame, pre *preSnap) *specCtx {
 			sc.vars[k] = v
 		}
 		sc.evFrom = pre.nEvent
+	}
+	if x.rootC != nil && fr.fn == x.root {
+		sc.letExprs = letMap(x.rootC)
 	}
 	return sc
 }
@@ -176,6 +181,15 @@ func (sc *specCtx) lookupVar(name string) (Value, bool) {
 		return v, true
 	}
 	if v, ok := sc.lets[name]; ok {
+		return v, true
+	}
+	if e, ok := sc.letExprs[name]; ok && !sc.letBusy[name] {
+		if sc.letBusy == nil {
+			sc.letBusy = map[string]bool{}
+		}
+		sc.letBusy[name] = true
+		v := sc.x.evalSpec(sc, e)
+		delete(sc.letBusy, name)
 		return v, true
 	}
 	if sc.frame != nil {
@@ -714,6 +728,20 @@ func (x *Exec) evalSpecCall(sc *specCtx, e *ast.CallExpr) Value {
 			return Scalar{t, types.Typ[types.Int]}
 		}
 		return Scalar{intLit(0), types.Typ[types.Int]}
+	}
+	if mc, ok := x.db.Macros[name]; ok {
+		if len(e.Args) != len(mc.Params) {
+			panic(engineErr("macro %s expects %d arguments", name, len(mc.Params)))
+		}
+		nsc := *sc
+		nsc.bound = map[string]Value{}
+		for k, v := range sc.bound {
+			nsc.bound[k] = v
+		}
+		for i, pn := range mc.Params {
+			nsc.bound[pn] = arg(i)
+		}
+		return x.evalSpec(&nsc, mc.Body)
 	}
 	if sf, ok := x.db.Specs[name]; ok {
 		x.defineSpecFun(sf)
@@ -1364,4 +1392,15 @@ func (x *Exec) isSentinel(g *ssa.Global) bool {
 		}
 	}
 	return false
+}
+
+func letMap(c *FuncContract) map[string]ast.Expr {
+	if len(c.Lets) == 0 {
+		return nil
+	}
+	m := map[string]ast.Expr{}
+	for _, l := range c.Lets {
+		m[l.Label] = l.Expr
+	}
+	return m
 }
